@@ -1024,7 +1024,7 @@ SIG_P = [("(x : integer)", "integer", "vi"),
 def gen_sig_section(P, L1, seed, idx, family):
     """Last file(s) of every project: subprograms and enumeration literals with 1, 2 or 3 overloads in scope, named
     with a signature in attribute specifications (`attribute a of f[integer return integer] : function is 1;`,
-    subprograms only) and in alias declarations (`alias g is f[bit return integer];`, `alias l is lit[return t];`),
+    `attribute a of lit[return t] : literal is 2;`) and in alias declarations (`alias g is f[bit return integer];`, `alias l is lit[return t];`),
     in a package (declaration + body), an architecture declarative part, a process declarative part and a subprogram
     declarative part.  Own random stream and written after every other file, so that the rest of the project is what
     it was before this section existed."""
@@ -1080,6 +1080,17 @@ def gen_sig_section(P, L1, seed, idx, family):
             many = len(fs if cls == "function" else ps) > 1
             ln(ind, "attribute ", r(attr), " of ", r(x, "attr_spec_sig"), *([sig(sg)] if many or R.random() < 0.7 else []),
                " : ", cls, " is ", str(n), ";")
+        # ... of class literal: `attribute a of lit[return t] : literal is n;`, a literal that is not overloaded also
+        # without the signature
+        lspecs = list(zip(lits, tys)) + [(u, t) for u, t in zip(ulits, tys) if R.random() < 0.4]
+        R.shuffle(lspecs)
+        for l, t in lspecs:
+            n += 1
+            if (l in lits and nl > 1) or R.random() < 0.6:
+                ln(ind, "attribute ", r(attr), " of ", r(l, "attr_spec_sig"), R.choice(["", " "]), "[return ", r(t), "] : literal is ",
+                   str(n), ";")
+            else:
+                ln(ind, "attribute ", r(attr), " of ", r(l, "attr_spec_sig"), " : literal is ", str(n), ";")
         # alias declarations with a signature
         for x, v in fs:
             if R.random() < 0.7:
